@@ -86,6 +86,11 @@ int main(int argc, char** argv) {
     else if (hc_is(0, "resize")) { long long n = hc_int(2); HC_TRY(resize(s, (size_t)n));
       /* r: the byte at index n, the last one of the room asked for (a caller may fill n characters in: it must be the terminator) */
       emit("resize", o, 0, n, "", hc_exc, hc_exc[0] ? 0 : (long long)(unsigned char)((struct String*)s)->val[n]); }
+    /* compared with an object that is no String but has characters of its own (a Type object: its name): cmp, eq and neq agree with
+       strcmp of the two texts */
+    else if (hc_is(0, "cmptype")) { var ty = hc_int(2) == 0 ? Int : hc_int(2) == 1 ? Float : Table; volatile long long r = 0, q = 0;
+      HC_TRY(r = cmp(s, ty); q = (eq(s, ty) ? 1 : 0) + (neq(s, ty) ? 2 : 0));
+      emit("cmptype", o, 0, q, c_str(ty), hc_exc, r < 0 ? -1 : r > 0 ? 1 : 0); }
     else if (hc_is(0, "remint")) { HC_TRY(rem(s, $I(5))); emit("remint", o, 0, 0, "", hc_exc, 0); }
     else if (hc_is(0, "resizehuge")) { HC_TRY(resize(s, (size_t)1 << 62)); emit("resizehuge", o, 0, 0, "", hc_exc, 0); }
     else if (hc_is(0, "printat")) { long long pos = hc_int(2); char* a = arg(3); volatile long long r = 0; HC_TRY(r = print_to(s, (int)pos, "%s", $S(a))); emit("printat", o, 0, pos, a, hc_exc, r); }
